@@ -4,6 +4,7 @@
 # report a VIOLATION; prints one line per patch. Exit 0 when all are caught.
 cd "$(dirname "$0")/.." || exit 2
 tier=${1:-quick}
+export VERIF_SEED=${2:-1}
 export GOFLAGS=-mod=mod GOPROXY=off GOSUMDB=off GOTOOLCHAIN=local GOWORK=off
 go build -o bin/verif ./cmd/verif || exit 2
 missed=0; total=0
@@ -19,5 +20,5 @@ for p in mutants/*.patch seeded/*/patch.diff; do
   class=$(echo "$out" | sed -n 's/^  class=\([^ ]*\).*/\1/p' | head -1)
   if [ "$code" = "1" ]; then echo "CAUGHT  $id $tier $p class=$class"; else echo "MISSED  $id $tier $p exit=$code"; missed=$((missed+1)); fi
 done
-echo "SUMMARY tier=$tier total=$total missed=$missed"
+echo "SUMMARY tier=$tier seed=$VERIF_SEED total=$total missed=$missed"
 [ $missed -eq 0 ]
